@@ -121,3 +121,24 @@ CHECKS["C16"] = {
   "text": "Every fit in the bound must return an orthonormal rotation with det +1, an RMSD over the masked atoms within tolerance of the float64 optimum (both directions) and not worse than any of 48 perturbed placements, exact copies to ~0 RMSD incl. collinear/planar/mirror-ambiguous sets, apply() == 4x4 matrix form == fitted coordinates model-wise for all array/stack combinations; outlier-tolerant and homolog variants are compared with the documented loop / their own anchor selection. ~3.5 M evaluations quick, ~15 M thorough.",
   "note": "Trusts mc/models/superpos.py (closed-form float64 optimum, rotation group, uniqueness gap); coordinates are lattice points exact in float32; a fixed stack with a single mobile array is EITHER (biotite refuses it with a clear IndexError).",
 }
+CHECKS["C11"] = {
+  "engine": "E2-input-enumerator",
+  "technique": "complete enumeration of all contiguous 2-row traces over sequences up to 3x3 (thorough 4x4) incl. clipped ends, all 3-row traces of total length <=5, all CIGAR strings with <=3/4 operations, all align_optimal outputs for pairs up to length 3, all small input tuples for align_multiple, against a column-by-column model with exact rationals, an own CIGAR interpreter and the MSA oracle",
+  "ref": "DESIGN.md section 4 C11; notes/C11.md",
+  "text": "Every trace in the bound is pushed through every conversion (gapped strings, code/symbol matrices, __getitem__ with all column/row selections, terminal-gap helpers, identity in 3 modes, score with 4 penalties, CIGAR writer with all option combinations decoded by an own parser, FASTA) and compared with a column-by-column recomputation; every CIGAR string in the bound is read and compared with a direct interpreter; every align_multiple call in the bound (n = 2..4/5 sequences of length 1-3, 3 penalties, default/supplied distances/supplied guide trees) must return one row per input in input order, gap-stripped rows equal to the inputs, a permutation order and a guide tree with every leaf once. ~8.1 M evaluations quick, ~78 M thorough.",
+  "note": "Trusts mc/models/alnconv.py; a bare integer index alignment[i] is unspecified; statistics.py (E-values) is not in the statement.",
+}
+CHECKS["C14"] = {
+  "engine": "E2-input-enumerator",
+  "technique": "complete enumeration of atom multisets on a half-integer lattice (exact in float32) x cell sizes x radii (scalar and per-query) x query points on the extended lattice (incl. far outside the box, NaN/inf) x selections x orthorhombic/triclinic boxes, against float64 brute force with exact minimum-image reduction",
+  "ref": "DESIGN.md section 4 C14; notes/C14.md",
+  "text": "For every cell list in the bound every query method (get_atoms with padded index arrays and masks, get_atoms_in_cells, create_adjacency_matrix) is compared with brute-force distances; because all coordinates, radii and cell sizes are dyadic the non-periodic comparison `distance <= radius` is exact incl. ties; periodic queries are compared with the minimum over 5^3 images after exact reduction into the primary cell (exact ties EITHER). ~167 M evaluations quick, ~1.8 G thorough.",
+  "note": "Trusts mc/models/geom.py; 3-multisets over the full 125-point lattice are replaced by sub-lattices + a corner family (a cell list with its query program costs ~3 ms); radius / cell size <= 20.",
+}
+CHECKS["C15"] = {
+  "engine": "E2-input-enumerator",
+  "technique": "complete enumeration of point pairs/triples/quadruples on small integer lattices x the 24 cube rotations x translations (exact integer arithmetic) x shape/broadcast combinations, 59 triclinic cells x length palettes x fractional grids x lattice shifts, all bond graphs on <=4 atoms x wrap vectors, against textbook float64 formulas and brute-force minimum images",
+  "ref": "DESIGN.md section 4 C15; notes/C15.md",
+  "text": "distance/angle/dihedral (coordinate and index variants, every shape combination, with and without boxes) are compared with textbook float64 values and must be invariant under every motion of the group; displacement minus plain difference must be an integer lattice combination and the shortest image (always orthorhombic; triclinic inside the unique range); move_inside_box, fraction conversion, unit cell <-> vectors, repeat_box, is_orthogonal, remove_pbc(_from_coord) are checked as lattice-vector actions and mutual inverses. ~545 M evaluations quick, ~2.6 G thorough.",
+  "note": "Trusts mc/models/geom.py; float32-derived tolerances (biotite casts coordinates to float32); degenerate angles/dihedrals are EITHER; remove_pbc re-assembling in array order instead of along bonds is a recorded known finding.",
+}
